@@ -96,8 +96,50 @@ def build_metafile(case, payload_root, out):
     raw = refenc.build(case.get("meta_name", tree["name"]), [(list(f.get("meta_path", f["path"])), d) for f, (_, d) in zip(tree["files"], files)],
                        P, v, single=bool(tree.get("single")), pads="bep47" if case.get("align") and v == 1 else "none",
                        trailing_pad=bool(case.get("trailing_pad")), **kw)
+    if case.get("type_hostile") is not None:
+        raw = _type_hostile(raw, case["type_hostile"], v)
     write_file(out, raw)
     return "ok"
+
+
+def _type_hostile(raw, k, v):
+    """Values of unexpected TYPES in the places rebuild turns into paths and sizes."""
+    from .core import bdecode_strict, bencode
+    d = bdecode_strict(raw)[0].py()
+    info = d[b"info"]
+    if k == 0:
+        info[b"name"] = [b"..", b"up"]                       # name is a list
+    elif k == 1:
+        info[b"name"] = 7                                    # name is an integer
+    elif k == 2 and b"files" in info:
+        info[b"files"][0][b"path"] = [b"..", 5, b"x"]        # integer path element
+    elif k == 3 and b"files" in info:
+        info[b"files"][0][b"path"] = []                      # empty path
+    elif k == 4 and b"files" in info:
+        info[b"files"][0][b"length"] = -5                    # negative length
+    elif k == 5 and b"files" in info:
+        info[b"files"][-1][b"length"] = 2 ** 70              # absurd length
+    elif k == 6 and b"file tree" in info:
+        tree = info[b"file tree"]
+        key = sorted(tree)[0]
+        tree[key][b".."] = {b"": {b"length": 3, b"pieces root": bytes(32)}}      # a node that is file AND directory
+    elif k == 7 and b"file tree" in info:
+        info[b"file tree"][b""] = {b"length": 1}             # file marker at the root of the tree
+    elif k == 8:
+        info[b"piece length"] = b"16384"                     # piece length is a string
+    elif k == 10:
+        # byte strings that are not valid UTF-8 and turn into '..' once the invalid bytes are dropped
+        if b"files" in info:
+            info[b"files"][0][b"path"] = [b".\xff.", b"\xfe..", info[b"files"][0][b"path"][-1]]
+        if b"file tree" in info:
+            tree = info[b"file tree"]
+            key = sorted(tree)[0]
+            tree[b".\xff."] = {b"\xfe..": {key: tree.pop(key)}}
+    elif k == 11:
+        info[b"name"] = b"\xff.\xff."
+    elif k == 9 and b"files" in info:
+        info[b"files"][0][b"path"] = [[b"..", b"y"]]         # nested list as path element
+    return bencode(d)
 
 
 def _subst(case, sbx):
@@ -154,6 +196,7 @@ def run_rebuild(case):
             os.makedirs(d)
         cand_bytes = {}
         written = {}
+        nse0 = len(sdirs)           # number of search directories the candidates are spread over
         names = []
         for ti, tree in enumerate(trees):
             single = bool(tree.get("single"))
@@ -171,7 +214,16 @@ def run_rebuild(case):
                         c["cls"] = "intact"        # for an empty file these are the empty file itself
                     sd = sdirs[c.get("search", 0) % len(sdirs)]
                     sub = ["k%02d-t%d-f%d" % (k, ti, fi)] + ["deep"] * c.get("depth", 0)
+                    if c.get("under_named_dir"):      # ... below a directory that carries the wanted file's own name
+                        sub = sub + [fname]
                     data = candidate_bytes(tree, f, c["cls"], k, P)
+                    if c.get("as_symlink"):        # the candidate is a symbolic link to a file kept elsewhere
+                        store = os.path.join(sbx, "abs", "store-%d-%d-%d" % (ti, fi, k))
+                        write_file(store, data)
+                        os.makedirs(os.path.join(sd, *sub), exist_ok=True)
+                        os.symlink(store, os.path.join(sd, *sub, fname))
+                        cand_bytes[(ti, fi, k)] = data
+                        continue
                     twin = written.get(data) if case.get("hardlink_cands") and data else None
                     if twin:        # de-duplicated search directory: identical files are hard links of one another
                         os.makedirs(os.path.join(sd, *sub), exist_ok=True)
@@ -180,6 +232,12 @@ def run_rebuild(case):
                         write_file(os.path.join(sd, *sub, fname), data)
                         written[data] = os.path.join(sd, *sub, fname)
                     cand_bytes[(ti, fi, k)] = data
+        if case.get("dir_named_like_file"):      # a DIRECTORY that carries the name of a wanted file, and a dangling link
+            f0 = trees[0]["files"][0]
+            nm0 = (f0.get("meta_path") or f0["path"] or [names[0]])[-1]
+            os.makedirs(os.path.join(sdirs[0], "aa-dirs", nm0, "inner"), exist_ok=True)
+            os.makedirs(os.path.join(sdirs[0], "aa-links"), exist_ok=True)
+            os.symlink(os.path.join(sbx, "abs", "nowhere"), os.path.join(sdirs[0], "aa-links", nm0))
         for u in range(case.get("unrelated", 1)):
             write_file(os.path.join(sdirs[0], "zz-unrelated", "other%d.bin" % u), content("unrelated/%d" % u, 1000 + u))
         # 3. destination pre-state
@@ -210,7 +268,7 @@ def run_rebuild(case):
         if case.get("file_arg"):          # one search argument is the path of a candidate FILE
             for dp, dns, fns in os.walk(sdirs[0]):
                 dns.sort()
-                if fns and "zz-unrelated" not in dp:
+                if fns and "zz-unrelated" not in dp and "aa-" not in dp:
                     sdirs = sdirs + [os.path.join(dp, sorted(fns)[0])]
                     break
         if case.get("nested_search"):     # the same directory is reachable through two search arguments
@@ -297,7 +355,7 @@ def run_rebuild(case):
             if not (ap == rdest or ap.startswith(rdest + os.sep)):
                 rec["outside_ops"].append({"kind": e["kind"], "path": hexs(os.path.relpath(ap, sbx))})
         recorded = {}
-        nse = len(sdirs)
+        nse = nse0
         for ti, tree in enumerate(trees):
             for fi, f in enumerate(tree["files"]):
                 recorded[os.path.relpath(dest_path(ti, f), sbx)] = (ti, fi)
